@@ -16,19 +16,19 @@ import (
 )
 
 type Case struct {
-	Kind    string   `json:"kind"`             // env, dir, vars, args, undef
-	Levels  []int    `json:"levels,omitempty"` // defined levels (1-based)
-	Desc    bool     `json:"desc,omitempty"`   // values descend along precedence
-	Order   []int    `json:"order,omitempty"`  // explicit value ranks per level (thorough)
-	Stage   bool     `json:"stage,omitempty"`  // run as a pipeline stage
-	Nested  bool     `json:"nested,omitempty"` // the pipeline is itself a stage of an outer pipeline
-	Vals    int      `json:"vals,omitempty"`   // value shape: 0 plain, 1 the winning level's value is empty, 2 values contain '=' and a space, 3 every lower level's value is empty
-	Name2   string   `json:"name2,omitempty"`  // name of the second variable (default W)
-	SubDir  bool     `json:"subdir,omitempty"` // invoked from a sub-directory
-	Args    []string `json:"args,omitempty"`
-	Via     string   `json:"via,omitempty"`
-	K, P    int      `json:",omitempty"`
-	Second  []int    `json:"second,omitempty"` // levels defining a second variable Y
+	Kind   string   `json:"kind"`             // env, dir, vars, args, undef
+	Levels []int    `json:"levels,omitempty"` // defined levels (1-based)
+	Desc   bool     `json:"desc,omitempty"`   // values descend along precedence
+	Order  []int    `json:"order,omitempty"`  // explicit value ranks per level (thorough)
+	Stage  bool     `json:"stage,omitempty"`  // run as a pipeline stage
+	Nested bool     `json:"nested,omitempty"` // the pipeline is itself a stage of an outer pipeline
+	Vals   int      `json:"vals,omitempty"`   // value shape: 0 plain, 1 the winning level's value is empty, 2 values contain '=' and a space, 3 every lower level's value is empty
+	Name2  string   `json:"name2,omitempty"`  // name of the second variable (default W)
+	SubDir bool     `json:"subdir,omitempty"` // invoked from a sub-directory
+	Args   []string `json:"args,omitempty"`
+	Via    string   `json:"via,omitempty"`
+	K, P   int      `json:",omitempty"`
+	Second []int    `json:"second,omitempty"` // levels defining a second variable Y
 }
 
 func (c Case) String() string {
